@@ -1223,7 +1223,7 @@ fn sgr_color<'a>(mut cmds: impl Iterator<Item = &'a [u8]>, colon: bool) -> Optio
                 let r = cmds.next().and_then(number_decode)?;
                 let g = cmds.next().and_then(number_decode)?;
                 let b = cmds.next().and_then(number_decode)?;
-                return Some(RGBA::new(r as u8, g as u8, b as u8, 255));
+                return Some(RGBA::new(r.min(255) as u8, g.min(255) as u8, b.min(255) as u8, 255));
             }
             // `38:2:r:g:b` or `38:2:<color-space>:r:g:b`
             //
@@ -1236,7 +1236,7 @@ fn sgr_color<'a>(mut cmds: impl Iterator<Item = &'a [u8]>, colon: bool) -> Optio
                 cmds.next().and_then(number_decode),
             ] {
                 [Some(r), Some(g), Some(b), None] | [_, Some(r), Some(g), Some(b)] => {
-                    Some(RGBA::new(r as u8, g as u8, b as u8, 255))
+                    Some(RGBA::new(r.min(255) as u8, g.min(255) as u8, b.min(255) as u8, 255))
                 }
                 _ => None,
             }
